@@ -8,7 +8,7 @@ def get_prop(pid):
     if pid in ("C01", "C07"):
         import p_mgr
         return p_mgr.MgrProp(pid)
-    if pid in ("C12",):
+    if pid in ("C12", "C03"):
         import p_grid
         return p_grid.MoveProp(pid)
     raise SystemExit(f"unknown property {pid}")
